@@ -70,7 +70,90 @@ func genSchedOps(r *rng, prio bool) string {
 	return strings.Join(ops, ";")
 }
 
+// genPrioOps: at most 11 stream ids, so that no node ever has more than 12 kids (sort.Sort is insertion sort there)
+func genPrioOps(r *rng) string {
+	var ops []string
+	open := []int{}
+	closed := []int{}
+	ids := []int{1, 3, 5, 7, 9, 11, 13, 15, 17, 19, 21}
+	used := map[int]bool{}
+	n := []int{5, 15, 40, 120}[r.intn(4)]
+	adjust := func() {
+		sid := ids[r.intn(len(ids))]
+		dep := []int{0, ids[r.intn(len(ids))], sid, 23}[r.intn(4)]
+		ops = append(ops, fmt.Sprintf("a%d.%d.%d.%d", sid, dep, []int{0, 15, 15, 16, 200, 255}[r.intn(6)], r.intn(2)))
+	}
+	for i := 0; i < n; i++ {
+		switch r.intn(18) {
+		case 0, 1, 2:
+			sid := ids[r.intn(len(ids))]
+			if !used[sid] || r.chance(1, 10) { // sometimes re-open a closed / open id (panic or re-creation)
+				ops = append(ops, fmt.Sprintf("o%d", sid))
+				if !used[sid] {
+					open = append(open, sid)
+				}
+				used[sid] = true
+				if r.chance(4, 5) {
+					ops = append(ops, fmt.Sprintf("w%d.%d", sid, []int{0, 1, 5, 100, 16384, 65535, 100000}[r.intn(7)]))
+				}
+			}
+		case 3:
+			if len(open) > 0 {
+				j := r.intn(len(open))
+				ops = append(ops, fmt.Sprintf("c%d", open[j]))
+				closed = append(closed, open[j])
+				open = append(open[:j], open[j+1:]...)
+			} else if r.chance(1, 4) {
+				ops = append(ops, fmt.Sprintf("c%d", ids[r.intn(len(ids))])) // interface violation: panics
+			}
+		case 4, 5, 6, 7:
+			if len(open) > 0 {
+				ops = append(ops, fmt.Sprintf("pd%d.%d.%d", open[r.intn(len(open))], []int{0, 1, 7, 100, 1024, 1025, 16384, 16385, 40000}[r.intn(9)], r.intn(2)))
+			}
+		case 8:
+			if len(open) > 0 {
+				ops = append(ops, fmt.Sprintf("ph%d", open[r.intn(len(open))]))
+			} else if len(closed) > 0 {
+				ops = append(ops, fmt.Sprintf("ph%d", closed[r.intn(len(closed))]))
+			}
+		case 9:
+			ops = append(ops, []string{"pc", fmt.Sprintf("pr%d", ids[r.intn(len(ids))])}[r.intn(2)])
+		case 10:
+			if len(open) > 0 {
+				ops = append(ops, fmt.Sprintf("w%d.%d", open[r.intn(len(open))], []int{1, 10, 1000, 20000}[r.intn(4)]))
+			}
+		case 11:
+			ops = append(ops, fmt.Sprintf("W%d", []int{1, 100, 20000, -30000, -70000}[r.intn(5)]))
+		case 12:
+			if r.chance(1, 3) {
+				ops = append(ops, fmt.Sprintf("m%d", []int{16384, 1, 100, 512, 20000}[r.intn(5)]))
+			} else {
+				adjust()
+			}
+		case 13, 14:
+			adjust()
+		default:
+			ops = append(ops, "x")
+		}
+	}
+	for i := 0; i < 6+r.intn(10); i++ {
+		ops = append(ops, "x")
+	}
+	return strings.Join(ops, ";")
+}
+
 func init() {
+	register("prio", "C20: operation sequences against the real priority write scheduler (tree, sibling order, throttling, retention lists)", func(c *ctx) {
+		c.deferred = true
+		for i := 0; i < c.count; i++ {
+			r := c.rng.fork()
+			kind := fmt.Sprintf("prio:%d:%d:%d", []int{0, 1, 2, 4, 10}[r.intn(5)], []int{0, 1, 2, 4, 10}[r.intn(5)], r.intn(2))
+			c.tag("kind:" + kind[:4])
+			ops := genPrioOps(r)
+			c.tag("ops:" + bucket(strings.Count(ops, ";")+1))
+			c.op(fmt.Sprintf("sched kind=%s ops=%s", kind, ops))
+		}
+	})
 	register("sched", "C20/C12: operation sequences against the real round-robin and random write schedulers", func(c *ctx) {
 		c.deferred = true
 		for i := 0; i < c.count; i++ {
